@@ -208,6 +208,7 @@ def load_function_signature():
     k1 = op.port_kind(OutPort(Node(1), 0))
     sym.check("loadfunc_value_out", isinstance(k1, tys.ValueKind) and k1.ty == inst)
     sym.check("loadfunc_port_type", op.port_type(OutPort(Node(1), 0)) == inst)
+    sym.check("loadfunc_order_ports_are_OrderKind", isinstance(op.port_kind(OutPort(Node(1), -1)), tys.OrderKind) and isinstance(op.port_kind(InPort(Node(1), -1)), tys.OrderKind))
 
 
 def _value(tag):
@@ -237,6 +238,7 @@ def const_and_loadconst_agree():
     sym.check("loadconst_value_out", isinstance(ko, tys.ValueKind) and ko.ty == t and lc.outer_signature() == ft([], [t]))
     sym.check("loadconst_port_type", lc.port_type(OutPort(Node(2), 0)) == t)
     sym.check("const_num_out", c.num_out == 1 and lc.num_out == 1)
+    sym.check("loadconst_order_ports_are_OrderKind", isinstance(lc.port_kind(OutPort(Node(2), -1)), tys.OrderKind) and isinstance(lc.port_kind(InPort(Node(2), -1)), tys.OrderKind))
 
 
 @lemma("C06", bounds="rows 0..2 (quick) / 0..3 (thorough)")
